@@ -200,6 +200,17 @@ fn mode_model(cx: &mut Ctx, prop: &str, only_unit: Option<usize>, only_input: Op
                 if u.prog.rels[*r].lat.is_some() && facts[..i].iter().any(|(r2, t2)| r2 == r && t2[..t2.len() - 1] == t[..t.len() - 1]) { return; }
             }
             let want = match refeval::eval(&u.prog, &db_of(&u, facts)) { Ok(d) => d, Err(e) => { cx.rep.machinery_error(format!("reference rejects unit {}: {:?}", ui, e)); return; } };
+            // differential families: the reference evaluator, run directly on each variant's own (sugared /
+            // permuted / renamed) program, must agree with the unit's core program: guards the harness's expander
+            if prop == "C07" || prop == "C08" {
+                for v in &u.variants {
+                    if v.prog.macros.is_empty() && v.prog != u.prog {
+                        if let Ok(w2) = refeval::eval(&v.prog, &db_of(&u, facts)) {
+                            if w2 != want { cx.rep.machinery_error(format!("unit {} [{}]: the harness expander and the reference evaluator disagree on input {:?}", ui, v.label, facts)); return; }
+                        }
+                    }
+                }
+            }
             let derived: usize = want.rels.iter().map(|r| r.len()).sum::<usize>();
             let given: usize = db_of(&u, facts).rels.iter().map(|r| r.len()).sum();
             if derived > given { *unit_nontrivial = true; cx.rep.nontrivial += 1; }
@@ -624,7 +635,7 @@ fn main_inner(family: &str, tier: &str, shard: usize, nshards: usize, table: &[E
     let mut cx = Ctx { family: family.into(), mode: mode.clone(), thorough, units, table: &table, rep };
     if cx.rep.machinery_errors.is_empty() {
         match mode.as_str() {
-            "C01" | "C02" | "C03" | "C04" | "C10" | "C11" | "C12" => { let m = mode.clone(); mode_model(&mut cx, &m, only_unit, only_input) }
+            "C01" | "C02" | "C03" | "C04" | "C06" | "C07" | "C08" | "C09" | "C10" | "C11" | "C12" => { let m = mode.clone(); mode_model(&mut cx, &m, only_unit, only_input) }
             "C05" => mode_c05(&mut cx, only_unit, only_input),
             "C14" => {
                 let case = replay.as_ref().map(|r| (only_input.clone().unwrap_or_default(), r.get("case").get("timeouts_ns").as_array().map(|a| a.iter().map(|x| x.as_u64().unwrap()).collect()).unwrap_or_default()));
